@@ -132,6 +132,9 @@ type KVSys[K comparable, V comparable] struct {
 	// Lite (rank mode, high B-tree orders): the alphabet is reduced to the positions
 	// {first, second, middle, last-but-one, last}; the per-state probes stay complete.
 	Lite bool
+	// JSONTexts: inputs offered as FromJSON operations (fixed universes only); the reference adopts
+	// what the text denotes (kvLoadRef)
+	JSONTexts []string
 	// Pos (deep mode for insertion-ordered maps, K = V = Val): keys are fresh values the fingerprint
 	// drops; the alphabet puts a fresh key, re-puts / removes the key at a few positions of the
 	// insertion order, removes an absent key, clears.
@@ -886,6 +889,9 @@ func (b *kvBox[K, V]) Ops() []Op {
 		ops = append(ops, op("del", i))
 	}
 	ops = append(ops, op("clear"))
+	for ti := range s.JSONTexts {
+		ops = append(ops, op("fromjson", ti))
+	}
 	return ops
 }
 
@@ -965,6 +971,8 @@ func (b *kvBox[K, V]) resolveC(o Op, consume bool) (kind string, k K, v V) {
 		}
 	case "clear":
 		kind = "clear"
+	case "fromjson":
+		kind = "fromjson"
 	default:
 		panic("kv op " + o.N)
 	}
@@ -972,6 +980,9 @@ func (b *kvBox[K, V]) resolveC(o Op, consume bool) (kind string, k K, v V) {
 }
 
 func (b *kvBox[K, V]) Describe(o Op) string {
+	if o.N == "fromjson" {
+		return fmt.Sprintf("FromJSON(%s)", b.sys.JSONTexts[o.A[0]])
+	}
 	kind, k, v := b.resolve(o)
 	switch kind {
 	case "put":
@@ -1048,6 +1059,15 @@ func (b *kvBox[K, V]) Do(o Op) *Viol {
 	case "clear":
 		b.a.clear()
 		b.ref = nil
+	case "fromjson":
+		data := []byte(b.sys.JSONTexts[o.A[0]])
+		err := b.a.obj.(interface{ FromJSON([]byte) error }).FromJSON(data)
+		if err != nil {
+			return viol(tag(b.mainProp(), "C12"), "mismatch", "FromJSON(%s) failed: %v", data, err)
+		}
+		if !kvLoadRef(b, data) {
+			panic("tool error: reference cannot decode " + string(data))
+		}
 	}
 	return nil
 }
@@ -1237,6 +1257,13 @@ func (b *kvBox[K, V]) CheckState() *Viol {
 				}
 			} else if ok || gk != zk {
 				return viol(tag("C10", "C01"), "mismatch", "GetKey(%v) = (%v, %v) but no live pair has that value (displaced pair returned?)", v, gk, ok)
+			}
+		}
+		// every live pair is found through its value
+		for _, e := range b.ref {
+			gk, ok := b.a.getKey(e.v)
+			if !ok || !b.sameK(gk, e.k) {
+				return viol(tag("C10", "C01"), "mismatch", "GetKey(%v) = (%v, %v), reference pair is %v:%v", e.v, gk, ok, e.k, e.v)
 			}
 		}
 		// one-to-one: Get(k)=(v,true) <=> GetKey(v)=(k,true), over the key universe
